@@ -370,18 +370,42 @@ def autograd(ctx) -> None:
                 and "evolve" in show(a0[1])
     ctx.ob("AUTOGRAD", "forward result order", fwd.loc(), okr,
            "forward returns (evolved state, hamiltonian)" if okr else "forward no longer returns (state, hamiltonian)")
-    # the adjoint state uses the opposite sign in the exponent
-    ops = [g for g in ast.walk(bwd.node) if isinstance(g, ast.FunctionDef) and g is not bwd.node]
-    signs = set()
-    for g in ops:
-        for n in ast.walk(g):
-            if isinstance(n, ast.Return):
-                s = util.text(n.value).replace(" ", "")
-                signs.add("-" if s.startswith("-1j*dt") or s.startswith("(-1j*dt)") else "+" if s.startswith("1j*dt") or s.startswith("(1j*dt)") else "?")
-    oks = signs == {"-", "+"}
+    # the adjoint state uses the opposite sign in the exponent: each generator defined in backward, as a polynomial
+    from ..algebra import monomials
+    from ..model import FuncInfo
+    found = {}
+    for blk_owner in ast.walk(bwd.node):
+        for fld in ("body", "orelse"):
+            blk = getattr(blk_owner, fld, None)
+            if not isinstance(blk, list):
+                continue
+            for i, g in enumerate(blk):
+                if not (isinstance(g, ast.FunctionDef) and g is not bwd.node):
+                    continue
+                user = None
+                for st in blk[i + 1:]:
+                    for c in ast.walk(st):
+                        if isinstance(c, ast.Call) and any(isinstance(x, ast.Name) and x.id == g.name for x in c.args):
+                            user = user or util.text(c.func).split(".")[-1]
+                fi = FuncInfo(qualname=f"{bwd.qualname}.<locals>.{g.name}@{g.lineno}", name=g.name, node=g, module=bwd.module, parent=bwd)
+                ps = [q for q in Interp(prog, None, inline=lambda c_, r_, d_: False).run(fi) if q.status == "return"]
+                mons = monomials(ps[0].retval) if ps else {}
+                desc = "?"
+                if len(mons) == 1:
+                    (m, coef), = mons.items()
+                    atoms = sorted(show(x).replace(" ", "") for x in m)
+                    xname = fi.params[0] if fi.params else "x"
+                    if atoms.count("dt") == 1 and len(atoms) == 3 and xname in atoms and all(x.isidentifier() for x in atoms):
+                        desc = "-" if abs(coef + 1j) < 1e-12 else "+" if abs(coef - 1j) < 1e-12 else f"coefficient {coef}"
+                    else:
+                        desc = "not c·dt·(H x): " + "·".join(atoms)
+                found[(user or "?", g.lineno)] = desc
+    want = {"double_krylov": "-", "krylov_exp": "+"}
+    got = {u: d for (u, _), d in found.items()}
+    oks = len(found) == 2 and got == want
     ctx.ob("AUTOGRAD", "adjoint exponent", bwd.loc(), oks,
-           "parameter gradients use exp(−i·dt·H), the state gradient exp(+i·dt·H)" if oks else
-           f"the generators used in backward have signs {sorted(signs)} (expected one −i·dt·H and one +i·dt·H)")
+           "parameter gradients use the generator −i·dt·(H x) (double_krylov), the state gradient +i·dt·(H x) (krylov_exp)" if oks else
+           f"the generators defined in backward are {got} (expected −i·dt·H x for double_krylov and +i·dt·H x for krylov_exp)")
 
 
 # ------------------------------------------------------------------ derivative operators of the emu-sv backward pass
